@@ -1,5 +1,5 @@
 """Free-text parts of MANIFEST.json."""
-HOOK_COMMITS = ["575d9b7"]
+HOOK_COMMITS = ["575d9b7", "0b1a48f", "9cf0730"]
 
 ENGINES = [
     dict(name="tlc", path="/verif/spec", serves_properties=["C01", "C02", "C03", "C04", "C05", "C06", "C07", "C08", "C19"],
